@@ -293,6 +293,15 @@ def run_batch(case, ctx):
             hi_ = max(float(b.max()) for b in batches)
             batches = [np.round((b - lo_) / (hi_ - lo_ + 1e-300) * top * 0.5 + top * 0.5) for b in batches]
             ctx.count("integer_typed_batch_histories:" + idt)
+        f32 = False
+        if not locals().get("idt") and rng.random() < 0.12:
+            # readings quantised to one decimal; the reference is held in double precision, the test batches arrive in single precision
+            # (the oracle works with the exact values the single-precision numbers hold)
+            f32 = True
+            sc_ = float(np.std(np.vstack(batches))) or 1.0
+            batches = [np.round(b / sc_, 1) for b in batches]
+            batches = [batches[0]] + [b.astype(np.float32).astype(float) for b in batches[1:]]
+            ctx.count("histories_with_single_precision_test_batches")
         calls = []
         explicit_first = rng.random() < 0.5
         for i, X in enumerate(batches):
@@ -307,6 +316,7 @@ def run_batch(case, ctx):
             else:
                 calls.append(("update", X))
     idt = locals().get("idt") or case.get("literal", {}).get("dtype")
+    f32 = locals().get("f32") or bool(case.get("literal", {}).get("float32_tests"))
     det = gen.construct(KdqTreeBatch, kw, case, ctx)
     cmp_ = Cmp()
     model = None
@@ -317,10 +327,10 @@ def run_batch(case, ctx):
         for i, (op, X) in enumerate(calls):
             np.random.seed(rngtap.seed_for(case.get("seed_key", case["id"]), i))
             mark = tap.mark()
-            getattr(det, op)(X.astype(idt) if idt else X.copy())
+            getattr(det, op)(X.astype(idt) if idt else (X.astype(np.float32) if (f32 and i > 0) else X.copy()))
             ev = tap.since(mark)
             log.append([op, X.tolist() if X.size <= 200 else "omitted(%s)" % (X.shape,)])
-            base = dict(params=kw, calls=log, step=i, dtype=idt)
+            base = dict(params=kw, calls=log, step=i, dtype=idt, float32_tests=f32)
             built = None
             if op == "set_reference":
                 built = X
